@@ -64,7 +64,7 @@ func init() {
 		TrustedBase: baseTrusted,
 		Floors: []report.Floor{
 			{Rule: "print-slots", What: "methods", Min: 155},
-			{Rule: "print-helpers", What: "helpers", Min: 10},
+			{Rule: "print-helpers", What: "helpers", Min: 5},
 			{Rule: "byte-class", What: "evaluations", Min: 768},
 		},
 		Run: func(c *Ctx) {
